@@ -29,6 +29,8 @@ import (
 	neturl "net/url"
 	"os"
 	"sync"
+	"sync/atomic"
+	"syscall"
 	"time"
 
 	"github.com/la5nta/wl2k-go/transport"
@@ -162,9 +164,9 @@ func plan(seed int64, tier string) []vrt.Case {
 	}
 
 	// ---- PRNG volume ----
-	nLogin, nDeadline := 130, 6
+	nLogin, nDeadline := 1200, 12
 	if tier == "thorough" {
-		nLogin, nDeadline = 5000, 36
+		nLogin, nDeadline = 20000, 120
 	}
 	sizes := []int{0, 1, 2, 17, 100, 1000, 4095, 4096, 4097, 9000, 20000, 65536}
 	for i := 0; i < nLogin; i++ {
@@ -373,6 +375,7 @@ func transfer(conn net.Conn, send []byte, r *rand.Rand, waitPeer bool, pause *pa
 			if err != nil {
 				if err != io.EOF {
 					res.rerr = err
+					conn.Close() // failed connection: release the writer and the peer
 				}
 				return
 			}
@@ -407,11 +410,13 @@ func transfer(conn net.Conn, send []byte, r *rand.Rand, waitPeer bool, pause *pa
 			off += m
 			if err != nil {
 				res.werr = err
+				conn.Close() // no half-close possible any more: release the reader and the peer
 				return
 			}
 		}
 		if err := closeWrite(conn); err != nil {
 			res.werr = err
+			conn.Close()
 		}
 	}()
 	wg.Wait()
@@ -427,15 +432,6 @@ func addPlanCounters(o *vrt.Obs, dir string, st tcpx.Stats) {
 
 // judgeStream compares what one application read with what the other one wrote.
 func judgeStream(o *vrt.Obs, leg, dir, reader string, want []byte, res sideResult, p params) {
-	o.Count("bytes_compared_"+dir, int64(len(res.got)))
-	if res.rerr != nil {
-		key := fmt.Sprintf("%s:%s:read-error", leg, dir)
-		if isTimeout(res.rerr) {
-			key += ":timeout"
-		}
-		o.Violate(key, "%s application got a read error after login: %v (after %d of %d bytes; api=%s)", reader, res.rerr, len(res.got), len(want), p.API)
-		return
-	}
 	if cl := classify(want, res.got); cl != "" {
 		v := o.Violate(fmt.Sprintf("%s:%s:%s", leg, dir, cl),
 			"%s application read %d bytes until EOF, the peer wrote %d after login (%s; api=%s call=%q plan c2s=%s s2c=%s hold_k=%d order=%s)",
@@ -455,8 +451,97 @@ func head(b []byte, n int) []byte {
 // ---------------------------------------------------------------------------------------------
 // legs pair / eager / idle
 
+// teardown collects what has to be closed to release every goroutine of a login attempt, and a few
+// progress marks for the description of a stalled attempt.
+type teardown struct {
+	mu      sync.Mutex
+	closers []func()
+	marks   []string
+}
+
+func (t *teardown) add(f func()) {
+	t.mu.Lock()
+	t.closers = append(t.closers, f)
+	t.mu.Unlock()
+}
+
+func (t *teardown) mark(s string) {
+	t.mu.Lock()
+	t.marks = append(t.marks, s)
+	t.mu.Unlock()
+}
+
+func (t *teardown) closeAll() string {
+	t.mu.Lock()
+	cs, marks := t.closers, fmt.Sprint(t.marks)
+	t.closers = nil
+	t.mu.Unlock()
+	for _, f := range cs {
+		f()
+	}
+	return marks
+}
+
+// stallBound is the bounded-progress restatement of "arrives complete": a loopback login plus at
+// most 2 x 64 kB of traffic normally takes well under a second; if an attempt has not finished after
+// this long it is torn down and repeated, and only three stalled attempts in a row are reported.
+const stallBound = 30 * time.Second
+
+// confirmedStalls counts stall violations of this worker process. After two, further login cases
+// are skipped (inconclusive) so that a tree that stalls on every login is reported in bounded time.
+var confirmedStalls atomic.Int64
+
+func mergeObs(o *vrt.Obs, a vrt.Obs) {
+	o.Sigs = append(o.Sigs, a.Sigs...)
+	o.Violations = append(o.Violations, a.Violations...)
+	o.Inconclusive = append(o.Inconclusive, a.Inconclusive...)
+	for k, v := range a.Counters {
+		o.Count(k, v)
+	}
+	if a.Sample != nil {
+		o.Sample = a.Sample
+	}
+}
+
 func runLogin(o *vrt.Obs, p params) {
 	o.Evals = 1
+	if confirmedStalls.Load() >= 2 {
+		o.Inconclusive = append(o.Inconclusive, "skipped: this worker already confirmed two stalled logins")
+		return
+	}
+	const attempts = 3
+	var where []string
+	for a := 0; a < attempts; a++ {
+		td := &teardown{}
+		ch := make(chan vrt.Obs, 1)
+		go func() {
+			var ao vrt.Obs
+			vrt.Guard(&ao, func() { loginAttempt(&ao, p, td) })
+			ch <- ao
+		}()
+		select {
+		case ao := <-ch:
+			mergeObs(o, ao)
+			if a > 0 {
+				o.Count("logins_completed_only_on_retry", 1)
+			}
+			return
+		case <-time.After(stallBound + time.Duration(p.DMs)*time.Millisecond):
+		}
+		where = append(where, td.closeAll())
+		o.Count("login_attempts_stalled", 1)
+		select { // everything the attempt can block on has been closed
+		case <-ch:
+		case <-time.After(10 * time.Second):
+			o.Count("stalled_attempts_abandoned", 1) // blocked on something that is not I/O: leave the goroutines behind
+		}
+	}
+	confirmedStalls.Add(1)
+	o.Violate(p.Leg+":stalled", "login + transfer did not complete within %v in %d of %d attempts (api=%s call=%q plan c2s=%s s2c=%s order=%s n_c2s=%d n_s2c=%d); progress marks per attempt: %v",
+		stallBound, attempts, attempts, p.API, p.Call, p.PlanC2S, p.PlanS2C, p.Order, p.NC2S, p.NS2C, where)
+}
+
+func loginAttempt(o *vrt.Obs, p params, td *teardown) {
 	call, pw := string(p.Call), string(p.PW)
 	r := vrt.Rand(p.Seed, "c15-run")
 	payC2S := genPayload(r, p.NC2S)
@@ -531,6 +616,8 @@ func runLogin(o *vrt.Obs, p params) {
 				return
 			}
 			defer c.Close()
+			td.add(func() { c.Close() })
+			td.mark("server-accepted")
 			rd := bufio.NewReader(c)
 			if _, err := c.Write([]byte(promptCall)); err != nil {
 				out.err, out.stage = err, "write callsign prompt"
@@ -583,15 +670,19 @@ func runLogin(o *vrt.Obs, p params) {
 				return
 			}
 			defer c.Close()
+			td.add(func() { c.Close() })
+			td.mark("accept-returned")
 			if rc, ok := c.(interface{ RemoteCall() string }); ok {
 				out.remoteCall = rc.RemoteCall()
 			} else {
 				out.err, out.stage = fmt.Errorf("accepted connection %T has no RemoteCall()", c), "remote-call"
 			}
 			out.res = transfer(c, payS2C, srvRng, waitSrv, pauseS)
+			td.mark("server-transfer-done")
 		}()
 	}
 	defer srvClose()
+	td.add(srvClose)
 
 	px, err := tcpx.New(srvAddr, c2s, s2c)
 	if err != nil {
@@ -599,6 +690,7 @@ func runLogin(o *vrt.Obs, p params) {
 		return
 	}
 	defer px.Close()
+	td.add(px.Close)
 
 	// dialler side
 	doDial, fb := prepDial(p.API, px.Addr(), call, pw, dialTimeout)
@@ -615,10 +707,20 @@ func runLogin(o *vrt.Obs, p params) {
 			o.Inconclusive = append(o.Inconclusive, fmt.Sprintf("idle leg: login did not finish within %v (%v)", dialTimeout, derr))
 			return
 		}
+		if errors.Is(derr, syscall.EADDRNOTAVAIL) || errors.Is(derr, syscall.EADDRINUSE) || errors.Is(derr, syscall.EMFILE) {
+			o.Inconclusive = append(o.Inconclusive, "out of local ports / descriptors: "+derr.Error())
+			return
+		}
 		o.Violate(p.Leg+":dial-failed", "dialling a well-behaved server failed: %v (api=%s call=%q plan c2s=%s s2c=%s)", derr, p.API, call, p.PlanC2S, p.PlanS2C)
 		return
 	}
+	td.add(func() { conn.Close() })
+	td.mark("dial-returned")
 	cliRes := transfer(conn, payC2S, vrt.Rand(p.Seed, "c15-cli"), waitCli, pauseC)
+	td.mark("dialler-transfer-done")
+	if cliRes.rerr != nil || cliRes.werr != nil {
+		conn.Close() // no half-close was sent: let the server side see the end of the connection
+	}
 	srv := <-srvCh
 	conn.Close()
 	px.Close()
@@ -672,20 +774,34 @@ func runLogin(o *vrt.Obs, p params) {
 			o.Violate("pair:remote-call", "RemoteCall() = %q, the dialler's callsign is %q (class %s)", srv.remoteCall, call, p.CallClass)
 		}
 	}
+	// I/O errors after login come first: once a side failed, the byte counts of the other side are
+	// a consequence of the teardown, not an observation of their own
+	ioErr := false
 	for _, e := range []struct {
-		who string
-		err error
-	}{{"dialler", cliRes.werr}, {"server", srv.res.werr}} {
-		if e.err != nil {
-			key := p.Leg + ":write-error:" + e.who
-			if isTimeout(e.err) {
-				key += ":timeout"
-			}
-			o.Violate(key, "%s application got a write error after login: %v (api=%s)", e.who, e.err, p.API)
+		who, op string
+		err     error
+		n       int
+	}{{"dialler", "write", cliRes.werr, 0}, {"server", "write", srv.res.werr, 0}, {"dialler", "read", cliRes.rerr, len(cliRes.got)}, {"server", "read", srv.res.rerr, len(srv.res.got)}} {
+		if e.err == nil {
+			continue
 		}
+		// a reset seen by one side after the other side already failed is part of the same failure
+		if ioErr && !isTimeout(e.err) {
+			continue
+		}
+		ioErr = true
+		key := fmt.Sprintf("%s:%s-error:%s", p.Leg, e.op, e.who)
+		if isTimeout(e.err) {
+			key += ":timeout"
+		}
+		o.Violate(key, "%s application got a %s error after login: %v (after %d bytes read; api=%s plan c2s=%s s2c=%s)", e.who, e.op, e.err, e.n, p.API, p.PlanC2S, p.PlanS2C)
 	}
-	judgeStream(o, p.Leg, "c2s", "server", payC2S, srv.res, p)
-	judgeStream(o, p.Leg, "s2c", "dialler", payS2C, cliRes, p)
+	o.Count("bytes_compared_c2s", int64(len(srv.res.got)))
+	o.Count("bytes_compared_s2c", int64(len(cliRes.got)))
+	if !ioErr {
+		judgeStream(o, p.Leg, "c2s", "server", payC2S, srv.res, p)
+		judgeStream(o, p.Leg, "s2c", "dialler", payS2C, cliRes, p)
+	}
 
 	if p.NC2S+p.NS2C > 0 {
 		o.Sig("%s|%s|%s|%s|%s|%s|%s|%s|%s|k%s", p.Leg, p.API, p.CallClass, p.PWClass, p.PlanC2S, p.PlanS2C, p.Order, sizeBucket(p.NC2S), sizeBucket(p.NS2C), sizeBucket(holdK))
